@@ -22,6 +22,10 @@ type MethodCase struct {
 	// Group: consecutive cases with the same non-empty Group share one design, each in a service
 	// of its own (so that method names may repeat across the services of a design)
 	Group string
+	// SameService: consecutive cases with the same non-empty key are methods of ONE service
+	SameService string
+	// APIPath: HTTP base path of the API (only with Own)
+	APIPath string
 	// SvcPath/SvcPaths: HTTP base path(s) of the service (only with Own)
 	SvcPath  string
 	SvcPaths []string
@@ -296,11 +300,15 @@ func Pack(cases []MethodCase, perService, perDesign int, family string) []*Spec 
 	var svc *Service
 	prevOwn := false
 	prevGroup := ""
+	prevSame := ""
 	for _, mc := range cases {
 		sameGroup := mc.Group != "" && mc.Group == prevGroup
 		newGroup := mc.Group != prevGroup
 		prevGroup = mc.Group
-		if svc == nil || len(svc.Methods) >= perService || mc.Own || prevOwn || mc.Group != "" || newGroup {
+		together := mc.SameService != "" && mc.SameService == prevSame
+		newSame := mc.SameService != prevSame
+		prevSame = mc.SameService
+		if !together && (svc == nil || len(svc.Methods) >= perService || mc.Own || prevOwn || mc.Group != "" || newGroup || newSame) {
 			if !sameGroup && (cur == nil || len(cur.Services) >= perDesign || mc.Own || prevOwn || newGroup) {
 				cur = &Spec{Family: family}
 				out = append(out, cur)
@@ -340,6 +348,9 @@ func Pack(cases []MethodCase, perService, perDesign int, family string) []*Spec 
 			if !dup {
 				cur.Schemes = append(cur.Schemes, sc)
 			}
+		}
+		if mc.APIPath != "" {
+			cur.APIPath = mc.APIPath
 		}
 		if mc.SvcPath != "" {
 			svc.Path = mc.SvcPath
